@@ -14,12 +14,14 @@
 enum { F_QUEUE_FULL };
 static const char *const fault_names[] = { "queue_full_claim_refused", NULL };
 enum { P_DEPTH1, P_DEPTH32, P_WRAPPED, P_SEND_REORDERED, P_RECEIVE_BLOCKED, P_SLACK, P_HELD_DELAYED,
-       P_NON_POW2_SIZE, P_BOTH_ROUTES, P_EMPTY_TRUE, P_EMPTY_FALSE, P_FULL_THEN_RELEASE };
+       P_NON_POW2_SIZE, P_BOTH_ROUTES, P_EMPTY_TRUE, P_EMPTY_FALSE, P_FULL_THEN_RELEASE, P_LONG_HISTORY,
+       P_CLAIMS_OVER_256 };
 static const char *const probe_names[] = {
 	"depth_1", "depth_32", "slot_index_wrapped", "send_out_of_claim_order",
 	"receive_blocked_by_unsent_oldest", "slack_bytes_present", "release_delayed",
 	"message_size_not_power_of_two", "both_construction_routes_in_lock_step",
-	"empty_reported_true", "empty_reported_false", "claim_succeeds_after_release_of_full_queue", NULL };
+	"empty_reported_true", "empty_reported_false", "claim_succeeds_after_release_of_full_queue",
+	"history_of_900_to_2400_operations", "more_than_256_claims_on_one_queue", NULL };
 
 #define MAXDEPTH 32
 
@@ -71,6 +73,12 @@ static void run(void)
 	uint32_t route = sim_choose(3);		/* 0 init(), 1 static initialiser, 2 both */
 	uint32_t nops = 10 + sim_choose(111);
 	uint32_t bias = sim_choose(3);		/* 0 balanced, 1 producer heavy (full), 2 consumer heavy */
+	if (sim_chance(1, 6)) {
+		/* a long-lived queue: several hundred claims, so 8-bit cursors and counters wrap */
+		nops = 900 + sim_choose(1500);
+		bias = 0;
+		sim_probe(P_LONG_HISTORY);
+	}
 	if (depth == 1) sim_probe(P_DEPTH1);
 	if (depth == 32) sim_probe(P_DEPTH32);
 	if (slack) sim_probe(P_SLACK);
@@ -134,6 +142,8 @@ static void run(void)
 				}
 				if (n_claim >= depth)
 					sim_probe(P_WRAPPED);
+				if (n_claim == 257)
+					sim_probe(P_CLAIMS_OVER_256);
 				sent[slot] = false;
 				stamp[slot] = next_stamp++;
 				for (int r = 0; r < nroutes; r++)
@@ -224,7 +234,7 @@ const sim_harness_t sim_harness = {
 	.min_ops = 10,
 	.rule = "one case = one (depth 1..32, message size 1..40, slack) geometry, one construction route "
 		"(messageq_init, MESSAGEQ_VAR_INIT with run-time values, or both in lock step) and one "
-		"history of 10-120 claim / reordered send / receive / delayed release / empty operations "
+		"history of 10-120 (one run in six: 900-2400) claim / reordered send / receive / delayed release / empty operations "
 		"checked step by step against a bounded-FIFO model; non-trivial = at least 10 operations "
 		"and a refused claim or boundary probe occurred; distinct = distinct hash of the "
 		"geometry and operation/result event sequence",
